@@ -91,13 +91,18 @@ Definition wait_ok (s : st) : Prop :=
 
 Record Inv (s : st) : Prop := {
   i_open : opn s = cur_list s;
-  i_cur : forall c, cur s = Some c -> secure s = true /\ (ph s = PDoneOk \/ exists u, ph s = PPost c u);
+  i_cur : forall c, cur s = Some c ->
+          (secure s = true /\ (ph s = PDoneOk \/ exists u, ph s = PPost c u)) \/
+          (exists h f r u, ph s = PVerify c h f r u);
   i_post : forall c u, ph s = PPost c u -> cur s = Some c;
+  i_ver : forall c h f r u, ph s = PVerify c h f r u ->
+          cur s = Some c /\ secure s = false /\ In h (hosts s) /\ length (excl s) <= f /\ (u <= now s + THIRTY_S)%N;
   i_tasks : ntasks s = if running s then 1 else 0;
   i_wait : waiters s <> [] -> running s = true;
   i_live : closing s = false -> connected s = false -> running s = true \/ ph s = PNone \/ ph s = PDoneAuth;
   i_sleep : forall w, ph s = PSleep w -> excl s = [] /\ (w <= now s + SIXTY_S)%N;
-  i_dial : forall r d f, ph s = PDial r d f -> (d <= now s + TEN_S)%N /\ length (excl s) <= f /\ incl r (hosts s);
+  i_dial : forall r d f, ph s = PDial r d f ->
+           (d <= now s + TEN_S)%N /\ length (excl s) <= f /\ incl r (hosts s) /\ secure s = false;
   i_wdl : wait_ok s;
   i_fuel : fuel_out s = false;
   i_run : running s = true -> closing s = false;
@@ -163,43 +168,71 @@ Ltac inclh :=
   try (match goal with |- incl (if ?c then _ else _) _ => destruct c end);
   try assumption; try (apply incl_snoc; assumption); try (apply incl_nil_l).
 
+Lemma verify_done_inv cont fhc h c r s :
+  cur s = Some c -> opn s = [c] -> ntasks s = 1 -> wait_ok s -> fuel_out s = false -> closing s = false ->
+  incl (excl s) (hosts s) -> length (excl s) <= fhc -> In h (hosts s) ->
+  ContOk cont (hosts s) (desc s) (excl s) h -> Inv (verify_done cont fhc h c r s).
+Proof.
+  intros Hc Ho Ht Hw Hf Hcl Hex Hfhc Hin Hcont. unfold verify_done.
+  assert (Hother : Inv (fail_other s)).
+  { unfold fail_other, drop_transport. rewrite Hc, Ho. cbn [mem_nat]. rewrite Nat.eqb_refl. ss.
+    rewrite remove_nat_single. apply backoff_inv. constructor; ss; auto. }
+  destruct r as [[k delta]|]; [|exact Hother].
+  destruct (vclass_of k) eqn:Ek.
+  - (* ok *)
+    ss. destruct (subs s && supsub s && negb (delta =? 0)%N) eqn:Ep.
+    + inv_tac.
+      * rewrite Ho, Hc. reflexivity.
+      * left. split; [reflexivity|]. right. exists (now s + delta)%N. congruence.
+      * match goal with H : Some _ = Some _ |- _ => injection H as <- end. lia.
+    + eapply finish_ok_connected_inv; ss; eauto.
+  - (* wrong id *)
+    ss. unfold drop_transport. ss. rewrite Hc, Ho. cbn [mem_nat]. rewrite Nat.eqb_refl. ss.
+    rewrite remove_nat_single.
+    match goal with |- context [(fhc <? length ?e)] => destruct ((fhc <? length e) && negb (subset_nat (hosts s) e)) eqn:Econt end.
+    * apply andb_true_iff in Econt. destruct Econt as [E1 E2].
+      destruct (mem_nat h (excl s)) eqn:Em.
+      -- exfalso. apply Nat.ltb_lt in E1. lia.
+      -- apply Hcont; ss; auto.
+         ++ constructor; ss; auto; inclh.
+         ++ destruct (subset_nat (hosts s) (excl s ++ [h])); [discriminate|reflexivity].
+    * apply backoff_inv. constructor; ss; auto; inclh.
+  - (* authentication error: the connector ends *)
+    unfold drop_transport. rewrite Hc, Ho. cbn [mem_nat]. rewrite Nat.eqb_refl. ss.
+    rewrite remove_nat_single.
+    apply finish_auth_inv. constructor; ss; auto.
+  - (* any other failure: close and back off *)
+    exact Hother.
+Qed.
+
 Lemma after_connect_inv cont fhc h s :
-  Ctl s -> length (excl s) <= fhc -> In h (hosts s) ->
+  Ctl s -> secure s = false -> length (excl s) <= fhc -> In h (hosts s) ->
   ContOk cont (hosts s) (desc s) (excl s) h -> Inv (after_connect cont fhc h s).
 Proof.
-  intros [Ho Hc Ht Hw Hf Hcl Hex] Hfhc Hin Hcont. unfold after_connect, pop_verif. ss.
-  destruct (verifs s) as [|[k delta] vr] eqn:Ev.
-  - (* script exhausted: ok, 0 *)
-    ss. cbn [vclass_of]. ss.
-    replace (subs s && supsub s && negb (0 =? 0)%N) with false by (rewrite andb_false_r; reflexivity).
-    eapply finish_ok_connected_inv; ss; try reflexivity; auto.
-    + rewrite Ho. reflexivity.
-  - ss. destruct (vclass_of k) eqn:Ek.
-    + (* ok *)
-      ss. destruct (subs s && supsub s && negb (delta =? 0)%N) eqn:Ep.
-      * rewrite Ho. inv_tac.
-        -- match goal with H : Some _ = Some _ |- _ => injection H as <- end. split; [reflexivity|]. right. eauto.
-        -- match goal with H : Some _ = Some _ |- _ => injection H as <- end. lia.
-      * eapply finish_ok_connected_inv; ss; try reflexivity; auto. rewrite Ho. reflexivity.
-    + (* wrong id *)
-      ss. unfold drop_transport. ss. rewrite Ho. cbn [app mem_nat]. rewrite Nat.eqb_refl. ss.
-      rewrite remove_nat_single.
-      match goal with |- context [(fhc <? length ?e)] => destruct ((fhc <? length e) && negb (subset_nat (hosts s) e)) eqn:Econt end.
-      * apply andb_true_iff in Econt. destruct Econt as [E1 E2].
-        destruct (mem_nat h (excl s)) eqn:Em.
-        -- exfalso. apply Nat.ltb_lt in E1. lia.
-        -- apply Hcont; ss; auto.
-           ++ constructor; ss; auto; inclh.
-           ++ destruct (subset_nat (hosts s) (excl s ++ [h])); [discriminate|reflexivity].
-      * apply backoff_inv. constructor; ss; auto; inclh.
-    + (* authentication error: the connector ends *)
-      ss. unfold drop_transport. ss. rewrite Ho. cbn [app mem_nat]. rewrite Nat.eqb_refl. ss.
-      rewrite remove_nat_single.
-      apply finish_auth_inv. constructor; ss; auto.
-    + (* any other failure: close and back off *)
-      ss. unfold fail_other, drop_transport. ss. rewrite Ho. cbn [app mem_nat]. rewrite Nat.eqb_refl. ss.
-      rewrite remove_nat_single.
-      apply backoff_inv. constructor; ss; auto.
+  intros [Ho Hc Ht Hw Hf Hcl Hex] Hsec Hfhc Hin Hcont. unfold after_connect, pop_verif. ss.
+  assert (Hgen : forall k delta vd vs,
+    Inv (let s0 := emit (EvVerify (nextcid s) k) (set_verifs vs (emit (EvOpened (nextcid s) h)
+                     (set_cur (Some (nextcid s)) (set_opn (opn s ++ [nextcid s]) (set_nextcid (S (nextcid s)) s))))) in
+         if (vd =? 0)%N then verify_done cont fhc h (nextcid s) (Some (k, delta)) s0
+         else if (vd <? THIRTY_S)%N then set_ph (PVerify (nextcid s) h fhc (Some (k, delta)) (now s0 + vd)) s0
+         else set_ph (PVerify (nextcid s) h fhc None (now s0 + THIRTY_S))
+                     (if (vd =? THIRTY_S)%N then set_tie true s0 else s0))).
+  { intros k delta vd vs. cbv zeta. destruct (vd =? 0)%N.
+    - apply verify_done_inv; ss; auto. rewrite Ho. reflexivity.
+    - destruct (N.ltb_spec vd THIRTY_S).
+      + rewrite Ho. inv_tac.
+        * right. match goal with H : Some _ = Some _ |- _ => injection H as <- end. eauto.
+        * match goal with H : PVerify _ _ _ _ _ = PVerify _ _ _ _ _ |- _ => injection H as <- <- <- <- <- end.
+          repeat split; auto. lia.
+        * match goal with H : Some _ = Some _ |- _ => injection H as <- end. lia.
+      + rewrite Ho. destruct (vd =? THIRTY_S)%N; inv_tac.
+        all: try (right; match goal with H : Some _ = Some _ |- _ => injection H as <- end; eauto; fail).
+        all: try (match goal with H : PVerify _ _ _ _ _ = PVerify _ _ _ _ _ |- _ => injection H as <- <- <- <- <- end;
+                  repeat split; auto; lia).
+        all: try (match goal with H : Some _ = Some _ |- _ => injection H as <- end; lia). }
+  destruct (verifs s) as [|[[k delta] vd] vr] eqn:Ev.
+  - change (0 =? 0)%N with true. cbv iota. apply verify_done_inv; ss; auto. rewrite Ho. reflexivity.
+  - exact (Hgen k delta vd vr).
 Qed.
 
 Lemma rounds_inv cont fhc : forall cands s,
@@ -317,8 +350,8 @@ Ltac dinv H :=
   let Ho := fresh "Io" in let Hc := fresh "Ic" in let Hp := fresh "Ip" in let Ht := fresh "It" in
   let Hw := fresh "Iw" in let Hl := fresh "Il" in let Hs := fresh "Is" in let Hd := fresh "Id" in
   let Hwd := fresh "Iwd" in let Hf := fresh "If" in let Hr := fresh "Ir" in let Hpt := fresh "Ipt" in
-  let Hex := fresh "Iex" in
-  destruct H as [Ho Hc Hp Ht Hw Hl Hs Hd Hwd Hf Hr Hpt Hex].
+  let Hex := fresh "Iex" in let Hv := fresh "Iv" in
+  destruct H as [Ho Hc Hp Hv Ht Hw Hl Hs Hd Hwd Hf Hr Hpt Hex].
 
 Lemma inv_cur_none s : Inv s -> connected s = false -> cur s = None.
 Proof.
